@@ -144,6 +144,19 @@ class Machine:
                 self.write(loc, self.read(loc) + (1 if n.op == "++" else -1))
             return
 
+    def _dead_end(self, b, depth=3):
+        """does block b lead only to a noreturn call (assertion failure)?"""
+        fn = self.fn
+        for _ in range(depth):
+            blk = fn.blocks[b]
+            if blk.get("noreturn"):
+                return True
+            ss = fn.succ[b]
+            if len(ss) != 1:
+                return False
+            b = ss[0][1]
+        return False
+
     def run(self, start, stop, max_blocks=200):
         """Walk from `start` ('entry' or a node: begins after it) until an element satisfies stop(node).
         Branches are decided by evaluating their condition in the current state.
@@ -181,7 +194,15 @@ class Machine:
                     b, i = succ[0][1], 0
                     continue
                 raise Unevaluable("branch without condition")
-            v = self.eval(c)
+            try:
+                v = self.eval(c)
+            except Unevaluable:
+                # assert(x) in a debug configuration: one successor only reaches a noreturn call; take the other
+                live = [(idx, t) for idx, t in succ if not self._dead_end(t)]
+                if len(live) == 1:
+                    b, i = live[0][1], 0
+                    continue
+                raise
             want = 0 if v else 1
             nxt = [t for idx, t in succ if idx == want]
             if not nxt:
